@@ -92,6 +92,13 @@ def conversion_laws(prefix, task, merge, minlen, maxlen):
     # (vi) target lists are resolved with the same mapping
     tl = set_target_lists([s], conv)
     parts["target_list_same_mapping"] = len(tl) == 1 and tl[0] is lab and conv.convert_name(s) is lab
+    # ... name by name: entry i belongs to name i, also when several names resolve to one label (aliases, merged labels,
+    # two unregistered names), so that per-label threshold lists keep lining up
+    other = "car" if prefix == "autoware" else "green"
+    names = [s, other, s, "vehicle.car" if prefix == "autoware" else "red", "no such name"]
+    tl5 = set_target_lists(names, conv)
+    parts["target_list_is_name_by_name"] = len(tl5) == len(names) and tl5[0] is lab and tl5[2] is lab and all(
+        got is conv.convert_name(n) for got, n in zip(tl5, names))
     return Out(parts=parts, obs={"label": lab.name})
 
 
